@@ -295,6 +295,9 @@ struct Gen {
     static const char* kDeco[] = {"", " sp", "$d", "'q", ";sc", "*", "&a", "\"dq", "(p)", "\\b", "~t", "#h", "\xc3\xa9", "a:b", "%p", ">r"};
     int k = (int)(Hash64(base, (uint64_t)name_style * 131 + salt) % 24);
     if (k >= 16) return base;
+    // depfile syntax has no spelling for ; * > - a compiler could not report such a name, so
+    // scenarios with depfiles use the escapable ones (space, #, $) instead
+    if (Has(F_DEPFILE) || Has(F_DEPSGCC)) { if (k == 4) k = 1; else if (k == 5) k = 11; else if (k == 15) k = 2; }
     return base + kDeco[k];
   }
 
